@@ -83,6 +83,9 @@ def judge(out, expects, clause="deliver"):
         TP.check_direction(res, ex, clause)
     if out.sched.escalations:
         raise Violation(f"{clause}.escalation", f"worker escalated: {out.sched.escalations}")
+    late = inproc.late_wakeups(out.sched)
+    if late:
+        raise Violation(f"{clause}.lost-wakeup", f"a blocked call was never woken, it only returned by its 60 s timeout: {late}")
 
 
 class Sched(Part):
